@@ -4,10 +4,10 @@ import itertools
 
 from ..core import rule, Ctx
 from ..index import AnalysisError, dotted, src, walk_no_nested, names_in
-from ..cfg import CFG, const_env_step
+from ..cfg import CFG, const_env_step, UNK
 from ..consteval import run_function, Unfoldable, fold, TOP
 from ..domains import linform, Lin, check_pred
-from ..util import node_calls, own_expr, pred_is, eval_local
+from ..util import node_calls, own_expr, pred_is, eval_local, final_assignments, last_name
 from .slots import TAPS, MOLECULE, SEQUTILS
 
 
@@ -176,29 +176,26 @@ def r4(ctx):
                        '(inclusive) in both orientations, symmetric under swapping the mates, and the per-read filter is start <= pos <= end')
 def r5(ctx):
     f = ctx.fn(SEQUTILS, 'get_consensus_dictionaries')
-    arms = {}
-    for s in walk_no_nested(f):
-        if isinstance(s, ast.If) and 'R1.is_reverse' in src(s.test) and 'R2.is_reverse' in src(s.test):
-            cur = s
-            while isinstance(cur, ast.If):
-                asg = [a for a in cur.body if isinstance(a, ast.Assign) and isinstance(a.targets[0], ast.Tuple) and [src(e) for e in a.targets[0].elts] == ['start', 'end']]
-                if asg and isinstance(asg[0].value, ast.Tuple):
-                    arms[src(cur.test)] = (linform(asg[0].value.elts[0]), linform(asg[0].value.elts[1]), asg[0])
-                cur = cur.orelse[0] if len(cur.orelse) == 1 and isinstance(cur.orelse[0], ast.If) else None
-            break
-    ren = lambda l, a, b: Lin({k.replace(a, '#').replace(b, a).replace('#', b): v for k, v in l.coef.items()}, l.const)
+    # the window handed to the per-read extraction: 2nd and 3rd argument of the read_to_consensus_dict calls
+    rcalls = [c for c in walk_no_nested(f) if isinstance(c, ast.Call) and last_name(dotted(c.func) or '') == 'read_to_consensus_dict' and len(c.args) >= 3]
+    if not rcalls or any(not (isinstance(c.args[1], ast.Name) and isinstance(c.args[2], ast.Name)) for c in rcalls):
+        raise AnalysisError('get_consensus_dictionaries: the window arguments of read_to_consensus_dict are not locals')
+    wins = {(c.args[1].id, c.args[2].id) for c in rcalls}
+    if len(wins) != 1:
+        ctx.emit('C14-R5', False, SEQUTILS, rcalls[0], f'the two mates are extracted with different windows {sorted(wins)}', key='dove-window:same-window')
+    sv, evn = sorted(wins)[0]
     want = {
-        'R1.is_reverse and (not R2.is_reverse)': (Lin({'R2.reference_start': 1, 'dove_R2_distance': 1}), Lin({'R1.reference_end': 1, 'dove_R1_distance': -1}, -1)),
-        '(not R1.is_reverse) and R2.is_reverse': (Lin({'R1.reference_start': 1, 'dove_R1_distance': 1}), Lin({'R2.reference_end': 1, 'dove_R2_distance': -1}, -1)),
+        (True, False): ('R1.is_reverse and not R2.is_reverse', Lin({'R2.reference_start': 1, 'dove_R2_distance': 1}), Lin({'R1.reference_end': 1, 'dove_R1_distance': -1}, -1)),
+        (False, True): ('not R1.is_reverse and R2.is_reverse', Lin({'R1.reference_start': 1, 'dove_R1_distance': 1}), Lin({'R2.reference_end': 1, 'dove_R2_distance': -1}, -1)),
     }
-    norm = {k.replace('(', '').replace(')', ''): v for k, v in arms.items()}
     n = 0
-    for k, (ws, we) in want.items():
-        kk = k.replace('(', '').replace(')', '')
-        got = norm.get(kk)
+    for (r1, r2), (kk, ws, we) in want.items():
+        facts = {'dove_safe': True, 'R1.is_reverse': r1, 'R2.is_reverse': r2, 'R1 is None': False, 'R2 is None': False, 'R1 is not None': True, 'R2 is not None': True}
+        paths = [env for kind, env in final_assignments(f.body, lambda e: facts.get(src(e), UNK), {sv, evn}, upto=rcalls[0])]
         n += 1
-        ok = got is not None and got[0] == ws and got[1] == we
-        ctx.emit('C14-R5', ok, SEQUTILS, got[2] if got else f, f'orientation `{kk}`: safe window [{got[0] if got else None}, {got[1] if got else None}]' +
+        got = {(str(linform(env[sv])) if sv in env else None, str(linform(env[evn])) if evn in env else None) for env in paths}
+        ok = bool(paths) and got == {(str(ws), str(we))}
+        ctx.emit('C14-R5', ok, SEQUTILS, rcalls[0], f'orientation `{kk}`: safe window {sorted(got, key=str)} on {len(paths)} path(s)' +
                  ('' if ok else f' (expected [{ws}, {we}] inclusive: the last base of the right mate is reference_end - 1)'), key=f'dove-window:{kk}',
                  what='get_consensus_dictionaries: dove-safe window end is not reference_end - distance - 1 in one orientation')
     g = ctx.fn(SEQUTILS, 'read_to_consensus_dict')
